@@ -101,7 +101,19 @@ def install_da_recorders(ip):
 
     def mk(name):
         def f(ip_, args, kwargs):
-            calls.append((name, list(args), dict(kwargs)))
+            # bind like python does: positional, then keywords, then the defaults of the REAL function definition
+            node = ip_.repo(f"{DA}::{name}").node
+            names = [a.arg for a in node.args.args]
+            dflt = dict(zip(names[len(names) - len(node.args.defaults):], node.args.defaults))
+            bound = list(args)
+            for nm in names[len(args):]:
+                if nm in kwargs:
+                    bound.append(kwargs[nm])
+                elif nm in dflt:
+                    bound.append(ast.literal_eval(dflt[nm]))
+                else:
+                    raise PyRaise("TypeError", (f"{name}() missing argument {nm}",))
+            calls.append((name, bound, {}))
             return None
         return f
 
@@ -115,8 +127,14 @@ def std_transition_contract(kind):
         self_, key, ks, ms, ep = args
         ip.ctx.ghost.setdefault("std_calls", []).append((key, ks, ms, ep))
         rel = "liesel/goose/kernel.py"
-        info = new_obj(ip, f"{rel}::DefaultTransitionInfo", error_code=ip.ctx.fresh("info.code", Int),
-                       acceptance_prob=ip.ctx.fresh("info.acc", Real), position_moved=ip.ctx.fresh("info.moved", Int))
+        fields = dict(error_code=ip.ctx.fresh("info.code", Int), acceptance_prob=ip.ctx.fresh("info.acc", Real), position_moved=ip.ctx.fresh("info.moved", Int))
+        info_cls = f"{rel}::DefaultTransitionInfo"
+        if kind in ("HMC", "NUTS"):  # the kernel's own info type: every field arbitrary (a divergent transition may report any acceptance probability)
+            info_cls = f"{KERNELS[kind][0]}::{kind}TransitionInfo"
+            fields["divergent"] = ip.ctx.fresh("info.divergent", Bool)
+            if kind == "NUTS":
+                fields.update(turning=ip.ctx.fresh("info.turning", Bool), treedepth=ip.ctx.fresh("info.treedepth", Int), leapfrog=ip.ctx.fresh("info.leapfrog", Int))
+        info = new_obj(ip, info_cls, **fields)
         return new_obj(ip, f"{rel}::TransitionOutcome", info=info, kernel_state=ks, model_state=ip.uf("std_new_state", ip.to_U(key), ip.to_U(ms)))
     return f
 
@@ -280,3 +298,49 @@ def init_state_unit(kind):
 
 for _k in KERNELS:
     init_state_unit(_k)
+
+
+def hooks_frame_unit(kind):
+    rel, kcls, _ = KERNELS[kind]
+    fns = [f"{rel}::{kcls}.end_warmup"] + ([f"{rel}::{kcls}.tune"] if kind in ("RW", "MH", "IWLS") else [f"{rel}::{kcls}._tune_fast", "liesel/goose/kernel.py::TuningMixin.tune"])
+
+    @unit(f"C11.hooks_frame.{kind}", "C11", fns)
+    def u(ip, kind=kind):
+        """what the dual averaging left in the kernel state stays there: the tuning hook after a FAST adaptation epoch (and every tuning call of
+        the kernels without a mass matrix) and end_warmup return the very state object they were given with step size, error sum, averaged
+        log step size and mu untouched - so the step size installed at the end of the last adaptation epoch is the one used afterwards."""
+        c = ip.ctx
+        blackjax_models(ip)
+        k = sym_kernel(ip, kind)
+        key, ms = z3.Const("key", U), z3.Const("ms", U)
+        for hook in ("tune", "end_warmup"):
+            ks = sym_da_state(ip, kind)
+            before = dict(ks.f)
+            if hook == "tune":
+                ep = sym_epoch_state(ip, "ep_tune", etype=z3.IntVal(1))  # FAST_ADAPTATION: no mass-matrix tuning
+                out = ip.call(method(ip, k, "tune"), [key, ks, ms, ep, z3.Const("history", U)], {})
+                st = out.f["kernel_state"]
+                c.oblige("tune.info_time_is_epoch_time", ip.getattr(out.f["info"], "time") is ep.f["time"] or (is_z3(ip.getattr(out.f["info"], "time")) and ip.getattr(out.f["info"], "time").eq(ep.f["time"])))
+            else:
+                out = ip.call(method(ip, k, "end_warmup"), [key, ks, ms, None], {})
+                st = out.f["kernel_state"]
+                c.oblige("end_warmup.error_code_zero", out.f["error_code"] == 0)
+            c.oblige(f"{hook}.returns_the_given_state", st is ks)
+            c.oblige(f"{hook}.tuning_state_untouched", set(ks.f) == set(before) and all(ks.f[f_] is before[f_] for f_ in before))
+    return u
+
+
+for _k in KERNELS:
+    hooks_frame_unit(_k)
+
+
+# "restarted at the beginning of every epoch ... at the end of the epoch the averaged step size becomes the kernel's step size" needs the
+# engine to make exactly these calls around every epoch (same harnesses as C07.kernel_start_epoch / C07.end_epoch / C07.sample_next_epoch)
+from contracts.c07 import E as _E, u_end_epoch, u_kernel_start  # noqa: E402
+
+unit("C11.engine_calls_start_epoch_for_every_epoch", "C11", [f"{_E}._kernel_start_epoch"], summaries=["KernelSequence.start_epoch (C07.kernel_sequence)"])(u_kernel_start)
+unit("C11.engine_calls_end_epoch_then_tune", "C11", [f"{_E}._end_epoch", f"{_E}._tune_kernels"], summaries=["KernelSequence.end_epoch / tune (C07.kernel_sequence)"])(u_end_epoch)
+from contracts.c07 import u_sample_next_epoch  # noqa: E402
+
+unit("C11.every_sampled_epoch_is_bracketed_by_start_and_end", "C11", [f"{_E}.sample_next_epoch"],
+     summaries=["_start_epoch / _kernel_start_epoch / _sample_for_duration / _end_epoch (C07 units)"])(u_sample_next_epoch)
